@@ -636,7 +636,7 @@ def gen_ichain(rng, tier):
     for n in lens:
         fam = fams[n % 3] if tier == "quick" else None
         for f in ([fam] if fam else fams):
-            for focus in (["exact", "fail", "max"] if tier == "quick" else ["exact", "max", "fail", "rand"] * 5):
+            for focus in (["exact", "fail", "max"] if tier == "quick" else ["exact", "max", "fail", "rand"] * 15):
                 if focus == "fail" and n == 0:
                     continue
                 ttls = ttl_vectors(rng, n, focus)
@@ -704,7 +704,7 @@ def gen_inj(rng, tier):
             for term in (0, 1):
                 cases.append({"type": "inj", "kind": kind, "ttl": str(rng.randrange(1, 16)),
                               "wire": "Q" + rand_wire(rng, words, term, rng.choice([0, 2, 4, 6])).replace("-", "")})
-    nrand = 1200 if tier == "quick" else 120000
+    nrand = 1200 if tier == "quick" else 300000
     for _ in range(nrand):
         kind = rng.choice(INJ_KINDS)
         ttl = rng.randrange(1, 16)
@@ -733,7 +733,7 @@ def gen_loops(rng, tier):
                 pass
             tsets = [[MAXTTL] * n, [1] * n, [rng.randrange(1, 16) for _ in range(n)]]
             if tier != "quick":
-                tsets += [[t] * n for t in range(2, 15)] + [[rng.randrange(1, 16) for _ in range(n)] for _ in range(6)]
+                tsets += [[t] * n for t in range(2, 15)] + [[rng.randrange(1, 16) for _ in range(n)] for _ in range(40)]
             for ttls in tsets:
                 if kind == "pair1":
                     wires = [w32(1) + "aa", w32(0) + "ab"]
@@ -772,7 +772,7 @@ def run(tier, seed, replay=None):
         cases = [parse_case(l.strip()) for l in open(replay) if l.strip() and not l.startswith("#")]
     else:
         cases = [parse_case(" ".join(c)) for c in load_corpus("C13")]
-        cases += gen_ichain(rng, tier) + gen_tap(rng, 300 if tier == "quick" else 8000) + gen_inj(rng, tier) + gen_loops(rng, tier)
+        cases += gen_ichain(rng, tier) + gen_tap(rng, 300 if tier == "quick" else 25000) + gen_inj(rng, tier) + gen_loops(rng, tier)
     R = Runner(impl, model_bin("modeld_c13"))
     model_fail, bus_alive = [], 0
     hist = {}
@@ -823,6 +823,15 @@ def run(tier, seed, replay=None):
     rep.cov["outcome_histogram"] = dict(sorted(R.stats.items()))
     rep.cov["model_impl_divergences"] = len(model_fail)
     rep.cov["bus_rings_still_alive_at_watchdog"] = bus_alive
+    if bus_alive:
+        key = "bus-device-ring-never-dies"
+        text = ("BUS has no hop limit: %d ring(s) of raw BUS devices were still forwarding the same message when the watchdog stopped them "
+                "(model: Properties_C13.ttl_kills_loops_bus_refuted)" % bus_alive)
+        if key in rep.known or os.environ.get("C13_BUS_RING_STRICT") == "1":
+            p = rep.replay_file("bus_ring.case", "# %s\nloop kind=bus ttls=1,1 wire=aabbcc max=40\n" % text)
+            rep.violation(p, text, key=key)
+        else:
+            rep.cov["unlisted_observation"] = text + " -- recorded only: the hop-limit clause of C13 speaks of sockets that have NNG_OPT_MAXTTL, BUS has none; reported to main as a known: candidate"
     rep.cov["samples"] = [fmt_case(c) for c in (cases[:2] + cases[len(cases) // 2:len(cases) // 2 + 2] + cases[-2:])]
     rep.cov["rule"] = (
         "ichain: REAL nng_device chains over inproc (lengths 0..17 for REQ/REP, SURVEYOR/RESPONDENT, PAIRv1; ttl 1..15 per hop aimed at i = t_i / "
